@@ -35,15 +35,15 @@ type Outcome struct {
 }
 
 type Config struct {
-	Name     string
-	NOps     int
-	OpName   func(op int) string
-	Enabled  func(hist []uint8, op int) bool // optional static pruning of the alphabet
-	MaxDepth int
-	Workers  int
-	Deadline time.Time // zero = none; checked between chunks
-	MaxStates int     // 0 = none; stops extending when reached (reported as cap)
-	Run      func(hist []uint8) Outcome
+	Name      string
+	NOps      int
+	OpName    func(op int) string
+	Enabled   func(hist []uint8, op int) bool // optional static pruning of the alphabet
+	MaxDepth  int
+	Workers   int
+	Deadline  time.Time // zero = none; checked between chunks
+	MaxStates int       // 0 = none; stops extending when reached (reported as cap)
+	Run       func(hist []uint8) Outcome
 }
 
 type Fail struct {
@@ -59,21 +59,21 @@ type KnownStat struct {
 }
 
 type Stats struct {
-	Name           string         `json:"name"`
-	States         int            `json:"states"`
-	Transitions    int            `json:"transitions"`
-	DepthCompleted int            `json:"depth_completed"`
-	MaxDepth       int            `json:"max_depth"`
-	Closed         bool           `json:"closed"` // frontier became empty: whole reachable space explored
-	Exhaustive     bool           `json:"exhaustive"`
-	Cap            string         `json:"cap,omitempty"`
-	PerDepth       []int          `json:"new_states_per_depth"`
-	Violations     []Fail         `json:"-"`
-	NViolations    int            `json:"violations"`
+	Name           string                `json:"name"`
+	States         int                   `json:"states"`
+	Transitions    int                   `json:"transitions"`
+	DepthCompleted int                   `json:"depth_completed"`
+	MaxDepth       int                   `json:"max_depth"`
+	Closed         bool                  `json:"closed"` // frontier became empty: whole reachable space explored
+	Exhaustive     bool                  `json:"exhaustive"`
+	Cap            string                `json:"cap,omitempty"`
+	PerDepth       []int                 `json:"new_states_per_depth"`
+	Violations     []Fail                `json:"-"`
+	NViolations    int                   `json:"violations"`
 	Known          map[string]*KnownStat `json:"-"`
-	KnownCut       int            `json:"branches_cut_by_known_findings"`
-	Samples        [][]string     `json:"-"`
-	WallS          float64        `json:"wall_s"`
+	KnownCut       int                   `json:"branches_cut_by_known_findings"`
+	Samples        [][]string            `json:"-"`
+	WallS          float64               `json:"wall_s"`
 }
 
 type res struct {
